@@ -138,5 +138,37 @@ def install(eng):
 
     M["warnings"] = _Warnings()
     M["itertools"] = itertools
+    import operator as _operator
+
+    class _Operator:
+        """operator.* on plain python values (in-place variants keep python's aliasing: iconcat(a, b) extends and returns a)"""
+
+        def __getattr__(self, name):
+            f = getattr(_operator, name)
+
+            def call(*a):
+                if any(isinstance(x, Sym) or eng.is_symbolic_collection(x) for x in a):
+                    raise Unsupported(f"operator.{name} on symbolic values")
+                return f(*a)
+            return call
+    M["operator"] = _Operator()
+
+    class _Functools:
+        def reduce(self, f, seq, *init):
+            it = list(eng.iterate(seq))
+            if init:
+                acc = init[0]
+            elif it:
+                acc, it = it[0], it[1:]
+            else:
+                from .interp import PyRaise
+                raise PyRaise(PyExc(TypeError, ("reduce() of empty iterable with no initial value",)))
+            for x in it:
+                acc = eng.call(f, [acc, x], {})
+            return acc
+
+        def __getattr__(self, name):
+            raise Unsupported(f"functools.{name} is not modelled")
+    M["functools"] = _Functools()
     M["math"] = math
     M["typing"] = type("T", (), {"TYPE_CHECKING": False})()
